@@ -448,8 +448,8 @@ static void c08_run(int tier, long cfg)
 
 enum { OS_IDLE, OS_DATA, OS_CHILD_CLOSED, OS_PARENT_CLOSED, OS_EOF_REPORTED, OS_NOT_PIPE, NOS };
 static const char *const os_names[] = { "idle", "data", "closed-by-child", "closed-by-parent", "eof-reported", "not-a-pipe" };
-enum { INS_IDLE, INS_CHILD_CLOSED, INS_PARENT_CLOSED, INS_FULL, INS_FULL_CHILD_CLOSED, NINS };
-static const char *const ins_names[] = { "idle", "closed-by-child", "closed-by-parent", "full", "full,then-closed-by-child" };
+enum { INS_IDLE, INS_CHILD_CLOSED, INS_PARENT_CLOSED, INS_FULL, INS_FULL_CHILD_CLOSED, INS_INPUT, NINS };
+static const char *const ins_names[] = { "idle", "closed-by-child", "closed-by-parent", "full", "full,then-closed-by-child", "closed-after-start-up-input" };
 enum { CS_RUNNING, CS_ZOMBIE, CS_REAPED, NCS };
 static const char *const cs_names[] = { "running", "zombie", "reaped" };
 
@@ -495,6 +495,7 @@ static void c09_prepare(struct proc *q, const struct c09_setup *su)
   if (su->expired_deadline) o.deadline = 1;
   if (su->os == OS_NOT_PIPE) o.redirect.out.type = REPROC_REDIRECT_DISCARD;
   if (su->err_pipe) o.redirect.err.type = REPROC_REDIRECT_PIPE;
+  if (su->ins == INS_INPUT) { o.input.data = (const uint8_t *) "ab"; o.input.size = 2; } /* the library closes the parent's end once the input is written */
   char script[64] = "";
   if (su->os == OS_DATA) strcat(script, "W1:3 ");
   if (su->os == OS_CHILD_CLOSED || su->os == OS_EOF_REPORTED) strcat(script, "C1 ");
